@@ -147,6 +147,19 @@ class Options:
         # otherwise return this value directly when attr is unprovided
     ):
         # super().__init__({k: v for k, v in locals().items() if not unprovided(v)})
+        if type(self) is not Options and not self.__dict__.get("_applying_class_options"):
+            # options declared as class attributes of an Options subclass (the documented way to share a set
+            # of options) count like the same options passed as arguments: they go through the same checks
+            # and implications, and they take part when option sets are merged
+            declared = self._class_options()
+            if declared:
+                passed = {k: v for k, v in locals().items() if k in self._option_names and not unprovided(v)}
+                self.__dict__["_applying_class_options"] = True
+                try:
+                    self.__init__(**{**declared, **passed})
+                finally:
+                    self.__dict__.pop("_applying_class_options", None)
+                return
 
         if no_data_loss:
             if addition is None or unprovided(addition):
@@ -208,9 +221,17 @@ class Options:
         return self.__repr__()
 
     @classmethod
+    def _class_options(cls) -> dict:
+        options = {}
+        for klass in reversed(cls.__mro__):
+            if klass is Options or not isinstance(klass, type) or not issubclass(klass, Options):
+                continue
+            options.update({k: v for k, v in klass.__dict__.items() if k in cls._option_names})
+        return options
+
+    @classmethod
     def initialize(cls):
-        options = {k: v for k, v in cls.__dict__.items() if k in cls._option_names}
-        return cls(**options)
+        return cls()
 
     @property
     def vacuum(self):
